@@ -200,3 +200,15 @@ Definition ew_scale_mode (ifm ifm2 : dyadic) (reversed : bool) : Z :=
    scale mode 1 scales operand A with the OPA pair and only shifts operand B (an exact 1/2), mode 2 the converse *)
 Definition ifm_gets_opa (smode : Z) (reversed : bool) : bool :=
   if reversed then smode =? 2 else smode =? 1.
+
+(* ---------------------------------------------------------------------------------------- *)
+(* register_command_stream_generator.generate_ofm_scaling_for_pooling, branch fused_quantize (a QUANTIZE compiled *)
+(* as a 1x1 average pool):  quantise_scale(np.double(ifm_scale) / np.double(ofm_scale)).  p is the precision at   *)
+(* which the quotient is formed: 53 is what the code does; 24 (quotient of the float32 scales formed in float32,   *)
+(* then widened) is NOT the reference.                                                                            *)
+Definition fused_quantize_scale (p : Z) (ifm ofm : dyadic) : Z * Z := q_scale_dy (fl_div p ifm ofm).
+
+(* TFLite quantize.cc Prepare (requantise):
+     const double effective_output_scale = static_cast<double>(input->params.scale) / static_cast<double>(output->params.scale);
+     QuantizeMultiplier(effective_output_scale, &data->output_multiplier, &data->output_shift); *)
+Definition tfl_requantize_params (ifm ofm : dyadic) : Z * Z := tfl_quantize_multiplier (fl_div 53 ifm ofm).
